@@ -300,3 +300,237 @@ Proof.
 Qed.
 
 End CutSim.
+
+(* ------------------------------------------------------------------------ *)
+(* the loop over subsets and decode_uncompressed                             *)
+(* ------------------------------------------------------------------------ *)
+Lemma run_subsets_cut t T : forall n i c1 c2 acc outs c1',
+  Rcut t c1 c2 -> run_subsets dec_prims T dec_switch i n c1 acc = Ok (outs, c1') ->
+  (exists e, d_r c1 = e ++ d_r c1') /\
+  if (length t <=? length (d_r c1'))%nat
+  then exists c2', run_subsets dec_prims T dec_switch i n c2 acc = Ok (outs, c2') /\ Rcut t c1' c2'
+  else lib_fail (run_subsets dec_prims T dec_switch i n c2 acc).
+Proof.
+  induction n as [|n IH]; intros i c1 c2 acc outs c1' HR E; cbn [run_subsets] in *.
+  - injection E as <- <-. split; [exists []; reflexivity|].
+    pose proof HR as (Hr & _). destruct (Nat.leb_spec (length t) (length (d_r c1))); [eauto|].
+    rewrite Hr, app_length in *. lia.
+  - unfold run_template in *. apply bind_ok in E as (s1 & E1 & E).
+    destruct (dec_walk_cut t) as [_ Hw]. destruct (Hw T) as [Sw Cw].
+    assert (HR0 : Rst (Rio (Rcut t)) (mkWs regs0 (mkIo [] [] (dec_switch i c1))) (mkWs regs0 (mkIo [] [] (dec_switch i c2)))).
+    { split; cbn; [reflexivity|]. split; [reflexivity|]. split; [reflexivity|].
+      destruct HR as (Hr & Hv & Hc). repeat split; cbn; assumption. }
+    destruct (Sw _ _ E1) as (e1 & X1). unfold rd in X1. cbn in X1.
+    specialize (Cw _ _ _ HR0 E1). unfold rd in Cw.
+    destruct (Nat.leb_spec (length t) (length (d_r (io_c (w_c s1))))) as [Hle|Hgt].
+    + destruct Cw as (s2 & E2 & [Hr2 (Hdd & Hl & Hc2)]).
+      destruct (IH _ _ _ _ _ _ Hc2 E) as ((e2 & X2) & Hrest).
+      split; [exists (e1 ++ e2); rewrite X1, X2, app_assoc; reflexivity|].
+      rewrite E2. cbn [bind]. rewrite <- Hdd, <- Hl. exact Hrest.
+    + (* the walk of this subset already ran out of bits *)
+      assert (Hsuf : exists e2, d_r (io_c (w_c s1)) = e2 ++ d_r c1').
+      { clear -E. revert E. generalize (io_c (w_c s1)) (acc ++ [mkSubsetOut (io_dd (w_c s1)) (io_links (w_c s1))]) (S i).
+        induction n as [|n IHn]; intros c acc' j E; cbn [run_subsets] in E.
+        - injection E as _ <-. exists []. reflexivity.
+        - unfold run_template in E. apply bind_ok in E as (s & E1 & E).
+          destruct (dec_walk_cut []) as [_ Hw]. destruct (proj1 (Hw T) _ _ E1) as (e1 & X1). unfold rd in X1. cbn in X1.
+          destruct (IHn _ _ _ E) as (e2 & X2). exists (e1 ++ e2). rewrite X1, X2, app_assoc. reflexivity. }
+      destruct Hsuf as (e2 & X2).
+      split; [exists (e1 ++ e2); rewrite X1, X2, app_assoc; reflexivity|].
+      destruct (Nat.leb_spec (length t) (length (d_r c1'))) as [Hle'|_].
+      * exfalso. rewrite X2, app_length in Hgt. lia.
+      * apply lib_fail_bind, Cw.
+Qed.
+
+(* Decode.decode_uncompressed cuts: any template, any number of subsets *)
+Theorem decode_uncompressed_cuts T n :
+  cuts (fun r => let* (ov, rest) := (let* (outs, vals, rest) := decode_uncompressed T n r in Ok (outs, vals, rest)) in
+                 Ok (ov, rest)).
+Proof.
+  apply cuts_intro_le. intros R0 [outs vals] R' E.
+  apply bind_ok in E as ([[o v] rest] & E & E'). injection E' as <- <- <-.
+  apply bind_ok in E as ([[o' v'] rest'] & E & E'). injection E' as <- <- <-.
+  unfold decode_uncompressed in E. apply bind_ok in E as ([o1 d] & E & E'). injection E' as <- <- <-.
+  (* the prefix *)
+  assert (HR0 : Rcut [] (mkD R0 (repeat [] n) 0) (mkD R0 (repeat [] n) 0)) by (repeat split; cbn; rewrite ?app_nil_r; reflexivity).
+  destruct (run_subsets_cut [] T _ _ _ _ _ _ _ HR0 E) as ((e & X) & _). cbn [d_r] in X.
+  exists e. split; [exact X|]. intros k Hk.
+  set (t := skipn k R0). set (r := firstn k R0).
+  assert (HR : Rcut t (mkD R0 (repeat [] n) 0) (mkD r (repeat [] n) 0)).
+  { repeat split; cbn. unfold r, t. symmetry. apply firstn_skipn. }
+  destruct (run_subsets_cut t T _ _ _ _ _ _ _ HR E) as (_ & C).
+  assert (Lt : length t = (length R0 - k)%nat) by (unfold t; apply skipn_length).
+  assert (LR : length R0 = (length e + length (d_r d))%nat) by (rewrite X, app_length; reflexivity).
+  unfold decode_uncompressed. fold r. split.
+  - intros Hle. destruct (Nat.leb_spec (length t) (length (d_r d))); [|lia].
+    destruct C as (c2' & E2 & (Hr2 & Hv2 & _)). rewrite E2. cbn [bind]. rewrite <- Hv2.
+    f_equal. f_equal.
+    (* d_r d = d_r c2' ++ t, so d_r c2' is its first k - |e| bits *)
+    rewrite Hr2. rewrite firstn_app.
+    assert (L2 : length (d_r c2') = (k - length e)%nat).
+    { apply (f_equal (@length bool)) in Hr2. rewrite app_length in Hr2. lia. }
+    rewrite L2, Nat.sub_diag. cbn [firstn]. rewrite app_nil_r. symmetry. apply firstn_all2. lia.
+  - intros Hlt. destruct (Nat.leb_spec (length t) (length (d_r d))); [lia|].
+    apply lib_fail_bind, lib_fail_bind, lib_fail_bind. exact C.
+Qed.
+
+(* ------------------------------------------------------------------------ *)
+(* the template decoder of the framing model, instantiated with the real      *)
+(* uncompressed data decoder: the (expanded) template and the number of       *)
+(* subsets are functions of the attributes decoded so far (sections 1 and 3;  *)
+(* table lookup and expansion are outside the framing model)                  *)
+(* ------------------------------------------------------------------------ *)
+Definition dd_uncompressed (T_of : list (pname * pvalue) -> descs) (n_of : list (pname * pvalue) -> nat)
+    (props : list (pname * pvalue)) (r : reader) : result (bits * reader) :=
+  let* (outs, vals, rest) := decode_uncompressed (T_of props) (n_of props) r in
+  Ok (firstn (length r - length rest) r, rest).
+
+Lemma decode_uncompressed_reads_prefix T n r outs vals rest :
+  decode_uncompressed T n r = Ok (outs, vals, rest) -> exists e, r = e ++ rest.
+Proof.
+  intros E.
+  assert (E' : (let* (ov, rest0) := (let* (outs0, vals0, rest0) := decode_uncompressed T n r in Ok (outs0, vals0, rest0)) in
+                Ok (ov, rest0)) = Ok ((outs, vals), rest)) by (rewrite E; reflexivity).
+  destruct (decode_uncompressed_cuts T n _ _ _ E') as (e & X & _). exists e. exact X.
+Qed.
+
+Lemma dd_uncompressed_prefix T_of n_of : forall p r b r',
+  dd_uncompressed T_of n_of p r = Ok (b, r') -> r = b ++ r'.
+Proof.
+  intros p r b r' E. unfold dd_uncompressed in E. apply bind_ok in E as ([[o v] rest] & E & E'). injection E' as <- <-.
+  destruct (decode_uncompressed_reads_prefix _ _ _ _ _ _ E) as (e & X).
+  rewrite X at 2 3. rewrite app_length. replace (length e + length rest - length rest)%nat with (length e) by lia.
+  rewrite firstn_app_exact by reflexivity. exact X.
+Qed.
+
+Lemma dd_uncompressed_suffix T_of n_of : forall p r b r' s,
+  dd_uncompressed T_of n_of p r = Ok (b, r') -> dd_uncompressed T_of n_of p (r ++ s) = Ok (b, r' ++ s).
+Proof.
+  intros p r b r' s E. unfold dd_uncompressed in *. apply bind_ok in E as ([[o v] rest] & E & E'). injection E' as <- <-.
+  rewrite (decode_suffix_independent _ _ _ s _ _ _ E). cbn [bind].
+  destruct (decode_uncompressed_reads_prefix _ _ _ _ _ _ E) as (e & X).
+  f_equal. f_equal. rewrite !app_length.
+  replace (length r + length s - (length rest + length s))%nat with (length r - length rest)%nat by lia.
+  rewrite firstn_app. replace (length r - length rest - length r)%nat with 0%nat by lia.
+  cbn [firstn]. rewrite app_nil_r. reflexivity.
+Qed.
+
+Lemma dd_uncompressed_cuts T_of n_of : forall p, cuts (dd_uncompressed T_of n_of p).
+Proof.
+  intros p. apply cuts_intro_le. intros R0 b R' E.
+  unfold dd_uncompressed in E. apply bind_ok in E as ([[o v] rest] & E & E'). injection E' as <- <-.
+  assert (E' : (let* (ov, rest0) := (let* (outs0, vals0, rest0) := decode_uncompressed (T_of p) (n_of p) R0 in Ok (outs0, vals0, rest0)) in
+                Ok (ov, rest0)) = Ok ((o, v), rest)) by (rewrite E; reflexivity).
+  destruct (decode_uncompressed_cuts _ _ _ _ _ E') as (e & X & K).
+  exists e. split; [exact X|]. intros k Hk. specialize (K k). destruct K as [Ka Kb].
+  assert (LR : length R0 = (length e + length rest)%nat) by (rewrite X, app_length; reflexivity).
+  unfold dd_uncompressed. split.
+  - intros Hle. specialize (Ka Hle).
+    destruct (decode_uncompressed (T_of p) (n_of p) (firstn k R0)) as [[[o2 v2] rest2]|er]; [|discriminate].
+    cbn [bind] in Ka |- *. injection Ka as <- <- ->. f_equal. f_equal.
+    rewrite !firstn_length, Nat.min_l by exact Hk. rewrite Nat.min_l by lia.
+    replace (k - (k - length e))%nat with (length e) by lia. replace (length R0 - length rest)%nat with (length e) by lia.
+    rewrite firstn_firstn, Nat.min_l by exact Hle. reflexivity.
+  - intros Hlt. destruct (Kb Hlt) as (er & Er & Hl).
+    destruct (decode_uncompressed (T_of p) (n_of p) (firstn k R0)) as [[[o2 v2] rest2]|er2]; [discriminate|].
+    cbn [bind] in Er |- *. injection Er as ->. exists er. auto.
+Qed.
+
+(* ------------------------------------------------------------------------ *)
+(* the message-level theorems for the real uncompressed template decoder     *)
+(* ------------------------------------------------------------------------ *)
+From PBK Require Import FrameRoundtrip FramePrefixEnc.
+
+Section Uncompressed.
+Variable T_of : list (pname * pvalue) -> descs.
+Variable n_of : list (pname * pvalue) -> nat.
+Notation dd := (dd_uncompressed T_of n_of).
+
+Theorem message_trailing_bytes_uncompressed : forall sig info ign s t m,
+  decode_message dd sig info ign s = Ok m ->
+  decode_message dd sig info ign (s ++ t) = Ok m.
+Proof.
+  intros sig info ign s t m H.
+  apply (message_trailing_bytes dd (dd_uncompressed_prefix T_of n_of) (dd_uncompressed_suffix T_of n_of) _ _ _ _ t _ H).
+Qed.
+
+Theorem message_cut_uncompressed : forall sig info ign s m,
+  decode_message dd sig info ign s = Ok m ->
+  forall k,
+    if holds_message sig s m k
+    then decode_message dd sig info ign (firstn k s) = Ok m
+    else lib_fail (decode_message dd sig info ign (firstn k s)).
+Proof. exact (message_cut dd (dd_uncompressed_cuts T_of n_of)). Qed.
+
+Theorem encoded_prefix_fails_uncompressed : forall ign json m k,
+  encode_message ign json = Ok m ->
+  forallb sec_fitsb (m_sections m) = true -> forallb desc_fill_okb (m_sections m) = true ->
+  data_okb dd [] (m_sections m) = true ->
+  (k < length (m_bytes m))%nat ->
+  lib_fail (decode_message dd (Some sig_BUFR) false false (firstn k (m_bytes m))).
+Proof.
+  intros ign json m k Henc Hf Hd Hdat Hk.
+  apply (encoded_prefix_fails dd (dd_uncompressed_prefix T_of n_of) (dd_uncompressed_suffix T_of n_of)
+           (dd_uncompressed_cuts T_of n_of) ign json m k Henc);
+    [apply sec_fitsb_sound, Hf|apply desc_fill_okb_all, Hd|
+     apply (data_okb_sound dd (dd_uncompressed_prefix T_of n_of) (dd_uncompressed_suffix T_of n_of)), Hdat|exact Hk].
+Qed.
+
+Theorem encoded_info_prefix_uncompressed : forall ign json m,
+  encode_message ign json = Ok m ->
+  forallb sec_fitsb (m_sections m) = true -> forallb desc_fill_okb (m_sections m) = true ->
+  data_okb dd [] (m_sections m) = true ->
+  exists mi,
+    decode_message dd (Some sig_BUFR) true false (m_bytes m) = Ok mi /\
+    sections_nbits (m_sections mi) = (8 * (length (m_bytes m) - 4))%nat /\
+    forall k,
+      ((length (m_bytes m) - 4 <= k)%nat ->
+         decode_message dd (Some sig_BUFR) true false (firstn k (m_bytes m)) = Ok mi) /\
+      ((k < length (m_bytes m) - 4)%nat ->
+         lib_fail (decode_message dd (Some sig_BUFR) true false (firstn k (m_bytes m)))).
+Proof.
+  intros ign json m Henc Hf Hd Hdat.
+  apply (encoded_info_prefix dd (dd_uncompressed_prefix T_of n_of) (dd_uncompressed_suffix T_of n_of)
+           (dd_uncompressed_cuts T_of n_of) ign json m Henc);
+    [apply sec_fitsb_sound, Hf|apply desc_fill_okb_all, Hd|
+     apply (data_okb_sound dd (dd_uncompressed_prefix T_of n_of) (dd_uncompressed_suffix T_of n_of)), Hdat].
+Qed.
+End Uncompressed.
+
+(* ---- non-vacuity: a template with a delayed replication and a string, two subsets ---- *)
+Definition exT : descs :=
+  descs_of_list
+    [DElem (mkElem 4001 [97]%N 0 0 12);
+     DDelayed 101000 (DElem (mkElem 31001 [97]%N 0 0 8))
+              (descs_of_list [DElem (mkElem 12001 [97]%N 1 0 12)]);
+     DElem (mkElem 1015 UNITS_STRING 0 0 16)].
+Definition exT_of (_ : list (pname * pvalue)) : descs := exT.
+Definition exn_of (props : list (pname * pvalue)) : nat :=
+  match prop_get Nn_subsets props with Some (PUint z) => Z.to_nat z | _ => O end.
+
+(* subset 1: 2024, two repetitions (273.1, 280.5), "AB"; subset 2: 2025, none, "CD" *)
+Definition ex_data : bits :=
+  to_bits 12 2024 ++ to_bits 8 2 ++ to_bits 12 2731 ++ to_bits 12 2805 ++ to_bits 8 65 ++ to_bits 8 66 ++
+  to_bits 12 2025 ++ to_bits 8 0 ++ to_bits 8 67 ++ to_bits 8 68.
+
+Definition exu_json : list (list pvalue) :=
+  [[PBytes sig_BUFR; PUint 0; PUint 4];
+   [PUint 0; PUint 0; PUint 7; PUint 0; PUint 0; PBool false; PBin (zeros 7); PUint 2; PUint 0; PUint 0;
+    PUint 33; PUint 0; PUint 2024; PUint 5; PUint 17; PUint 12; PUint 30; PUint 0];
+   [PUint 0; PBin (zeros 8); PUint 2; PBool true; PBool false; PBin (zeros 6); PDescs [4001; 101000; 31001; 12001; 1015]];
+   [PUint 0; PBin (zeros 8); PData ex_data];
+   [PBytes sig_7777]]%Z.
+
+Example uncompressed_truncation_nonvacuous :
+  match encode_message true exu_json with
+  | Ok m =>
+      forallb sec_fitsb (m_sections m) && forallb desc_fill_okb (m_sections m) &&
+      data_okb (dd_uncompressed exT_of exn_of) [] (m_sections m) &&
+      is_ok (decode_message (dd_uncompressed exT_of exn_of) (Some sig_BUFR) false false (m_bytes m)) &&
+      forallb (fun k => lib_failb (decode_message (dd_uncompressed exT_of exn_of) (Some sig_BUFR) false false
+                                     (firstn k (m_bytes m))))
+              (seq 0 (length (m_bytes m))) &&
+      (50 <? length (m_bytes m))%nat
+  | Err _ => false
+  end = true.
+Proof. vm_compute. reflexivity. Qed.
